@@ -94,6 +94,9 @@ func VerifH_C18_wallet_close() {
 	err = sw.Close()
 	w.closed = true
 	vapi.Assert("wallet.close-ok", err == nil)
+	// the constructor's goroutine is background work of the wallet: when Close
+	// returns it has ended, which shows in its last act, dropping the subscription
+	vapi.Assert("wallet.close-waits-for-the-background-goroutine", w.unsubscribed)
 	vapi.Reach("closed")
 	left := vapi.WaitIdle()
 	vapi.Note("blocked", vapi.Blocked())
@@ -104,3 +107,6 @@ func VerifH_C18_wallet_close() {
 		vapi.Reach("rebroadcast")
 	}
 }
+
+//verif:harness prop=C18 tier=thorough replay=interp go=sched preempt=4 timers=3 require=closed,rebroadcast bounds="as VerifH_C18_wallet_close with ≤4 delays, the timer firing ≤3 times"
+func VerifH_C18_wallet_close_deep() { VerifH_C18_wallet_close() }
